@@ -36,7 +36,7 @@ def r18_1(ctx):
     if f is None:
         ctx.missing("R18.1", "vector::VectorDiff::<T>::map")
         return
-    b = f.built
+    b = inl(F, f) or f.built   # the private per-vector helper (vector_map) is analysed in place
     sws = diff_switches(b)
     if not sws:
         ctx.missing("R18.1", "discriminant switch in VectorDiff::map")
@@ -47,12 +47,21 @@ def r18_1(ctx):
     for t, vs in multi:
         if vs:
             ctx.undecided("R18.1", f, "arm=" + "|".join(sorted(vs)), b.line_at((t, 0)), "several variants share one arm")
-    # role: the local helper map() hands its vector payloads to
-    vm = None
-    for blk, t in b.calls():
-        c = F.local_callee(f, t)
-        if c is not None and c.kind == "fn" and len(t["args"]) == 2:
-            vm = c
+    def elementwise(e, v):
+        """e is `collect(map(into_iter(<matched values>), <f>))` with no reordering / dropping adapter in between."""
+        x = strip(e, through_calls=False)
+        if not (x[0] == "call" and ecall_matches(x, r"Iterator>?::collect$|FromIterator<.*>>?::from_iter$") and x[3]):
+            return False
+        m = strip(x[3][0], through_calls=False)
+        if not (m[0] == "call" and ecall_matches(m, r"Iterator>?::map$") and len(m[3]) == 2):
+            return False
+        src = strip(m[3][0], through_calls=False)
+        if not (src[0] == "call" and ecall_matches(src, r"IntoIterator>?::into_iter$") and src[3]):
+            return False
+        if find_all(e, lambda y: y[0] == "call" and isinstance(y[1], str) and re.search(ADAPTERS, y[1])):
+            return False
+        return contains(src[3][0], lambda y: y[0] == "field" and y[2] == "values" and y[1][0] == "downcast" and y[1][2] == v) \
+            and contains(m[3][1], lambda y: y[0] == "param" and y[1] == 2)
     for v in VARIANTS:
         if v not in arms:
             if not any(v in vs for _, vs in multi):
@@ -86,10 +95,10 @@ def r18_1(ctx):
                     if not ok:
                         probs.append("`value` is `%s`, not f(matched value)" % fmt(e, 4))
                 elif name == "values":
-                    ok = x[0] == "call" and vm is not None and (x[2] or x[1]) and F.fns.get(IM + "::" + (x[2] or x[1])) is vm \
-                        and contains(x[3][0], lambda y: y[0] == "field" and y[2] == "values" and y[1][0] == "downcast" and y[1][2] == v) and contains(x[3][1], lambda y: y[0] == "param" and y[1] == 2)
-                    if not ok:
-                        probs.append("`values` is `%s`, not vector_map(matched values, f)" % fmt(e, 4))
+                    if not elementwise(e, v):
+                        ads_ = find_all(e, lambda y: y[0] == "call" and isinstance(y[1], str) and re.search(ADAPTERS, y[1]))
+                        probs.append("`values` is `%s`, not matched_values.into_iter().map(f).collect()%s" % (
+                            fmt(e, 5), (" (uses the adapter `%s`: element order / multiplicity is not preserved)" % ads_[0][1].split("::")[-1]) if ads_ else ""))
         if v in ("PushFront", "PushBack", "Insert", "Set") and len(fcalls) != 1:
             probs.append("f is called %d times in the arm (must be exactly once)" % len(fcalls))
         if v in ("Clear", "PopFront", "PopBack", "Remove", "Truncate") and fcalls:
@@ -99,24 +108,6 @@ def r18_1(ctx):
             ctx.violated("R18.1", f, "arm=" + v, where, "VectorDiff::map, arm %s: %s" % (v, "; ".join(probs)))
         else:
             ctx.holds("R18.1", f, "arm=" + v, where, "arm %s rebuilds %s with untouched index/length and f applied once to the element(s)" % (v, v))
-    # vector_map
-    if vm is None:
-        ctx.missing("R18.1", "vector::vector_map")
-        return
-    vb = vm.built
-    e = strip(ret_expr(vb), through_calls=False)
-    ok = (e[0] == "call" and ecall_matches(e, r"Iterator>?::collect$") and e[3]
-          and strip(e[3][0], through_calls=False)[0] == "call" and ecall_matches(strip(e[3][0], through_calls=False), r"Iterator>?::map$"))
-    if ok:
-        m = strip(e[3][0], through_calls=False)
-        src = strip(m[3][0], through_calls=False)
-        ok = src[0] == "call" and ecall_matches(src, r"IntoIterator>?::into_iter$") and strip(src[3][0])[0] == "param" and strip(src[3][0])[1] == 1 \
-            and strip(m[3][1])[0] == "param" and strip(m[3][1])[1] == 2
-    adapters = find_all(ret_expr(vb), lambda y: y[0] == "call" and isinstance(y[1], str) and re.search(ADAPTERS, y[1]))
-    if adapters:
-        ctx.violated("R18.1", vm, "vector_map-shape", vm.loc(), "vector_map uses the adapter `%s`: element order / multiplicity is not preserved" % adapters[0][1].split("::")[-1])
-    else:
-        ctx.verdict(ok if ok else None, "R18.1", vm, "vector_map-shape", vm.loc(), "vector_map = v.into_iter().map(f).collect()")
 
 
 def r18_2(ctx):
